@@ -103,94 +103,107 @@ theorem nameFold_append (id : Nat) (acc : Option String) (a b : List (Nat × Opt
     nameFold id acc (a ++ b) = nameFold id (nameFold id acc a) b := by
   simp [nameFold, List.foldl_append]
 
+/-! ### `optMap`: all-or-nothing map -/
+
+theorem optMap_length {α β : Type} (g : α → Option β) (l : List α) (l' : List β)
+    (h : optMap g l = some l') : l'.length = l.length := by
+  induction l generalizing l' with
+  | nil => simp [optMap] at h; subst h; rfl
+  | cons a as ih =>
+    simp only [optMap] at h
+    split at h
+    · cases h
+      rename_i b bs _ hbs
+      simp [ih bs hbs]
+    · cases h
+
+theorem optMap_getElem {α β : Type} (g : α → Option β) (l : List α) (l' : List β)
+    (h : optMap g l = some l') (i : Nat) (h1 : i < l.length) (h2 : i < l'.length) :
+    g l[i] = some l'[i] := by
+  induction l generalizing l' i with
+  | nil => simp at h1
+  | cons a as ih =>
+    simp only [optMap] at h
+    split at h
+    · cases h
+      rename_i b bs hb hbs
+      cases i with
+      | zero => simpa using hb
+      | succ i => simpa using ih bs hbs i (by simpa using h1) (by simpa using h2)
+    · cases h
+
+theorem optMap_some_of {α β : Type} (g : α → Option β) (l : List α)
+    (h : ∀ a ∈ l, ∃ b, g a = some b) : ∃ l', optMap g l = some l' := by
+  induction l with
+  | nil => exact ⟨[], rfl⟩
+  | cons a as ih =>
+    obtain ⟨b, hb⟩ := h a List.mem_cons_self
+    obtain ⟨bs, hbs⟩ := ih (fun x hx => h x (List.mem_cons_of_mem _ hx))
+    exact ⟨b :: bs, by simp [optMap, hb, hbs]⟩
+
 /-! ### attaching the unloaded-module offsets leaves everything else alone -/
 
-/-- everything of a call stack except the unloaded-module attribution -/
-def Stack.core (s : Stack) : Nat × Option String × Info × Option Nat := (s.id, s.name, s.info, s.frame0)
+theorem attachFrame_f (ums : List Mod) (f : Walk.Frame) (x : IFrame) (h : attachFrame ums f = some x) :
+    x.f = f := by
+  unfold attachFrame at h
+  split at h
+  · cases h; rfl
+  · split at h
+    · cases h; rfl
+    · cases h
 
-theorem attach_core (ms ums : List Mod) (ss ss' : List Stack) (h : attachUnloaded ms ums ss = some ss') :
-    ss'.map Stack.core = ss.map Stack.core := by
-  induction ss generalizing ss' with
-  | nil => simp [attachUnloaded] at h; subst h; rfl
-  | cons s rest ih =>
-    simp only [attachUnloaded] at h
+theorem optMap_attachFrame_f (ums : List Mod) (fs : List Walk.Frame) (xs : List IFrame)
+    (h : optMap (attachFrame ums) fs = some xs) : xs.map (·.f) = fs := by
+  induction fs generalizing xs with
+  | nil => simp [optMap] at h; subst h; rfl
+  | cons f rest ih =>
+    simp only [optMap] at h
     split at h
-    · simp only [Option.map_eq_some_iff] at h
-      obtain ⟨r, hr, rfl⟩ := h
-      simp [ih r hr]
-    · split at h
-      · cases h
-        rename_i u r _ hr
-        simp [ih r hr, Stack.core]
-      · cases h
+    · cases h
+      rename_i b bs hb hbs
+      simp [ih bs hbs, attachFrame_f ums f b hb]
+    · cases h
 
-theorem attach_some_of (ms ums : List Mod) (ss : List Stack)
-    (h : ∀ s ∈ ss, ∀ a, s.frame0 = some a → ∃ u, frameUnloaded ms ums a = some u) :
-    ∃ ss', attachUnloaded ms ums ss = some ss' := by
-  induction ss with
-  | nil => exact ⟨[], rfl⟩
-  | cons s rest ih =>
-    obtain ⟨r, hr⟩ := ih (fun x hx => h x (List.mem_cons_of_mem _ hx))
-    simp only [attachUnloaded]
-    split
-    · exact ⟨s :: r, by simp [hr]⟩
-    · rename_i a ha
-      obtain ⟨u, hu⟩ := h s List.mem_cons_self a ha
-      rw [hu, hr]
-      exact ⟨_, rfl⟩
-
-/-- what the attribution stores in each stack -/
-theorem attach_unloaded (ms ums : List Mod) (ss ss' : List Stack) (h : attachUnloaded ms ums ss = some ss')
-    (i : Nat) (h1 : i < ss.length) (h2 : i < ss'.length) :
-    match ss[i].frame0 with
-    | none => ss'[i].unloaded = ss[i].unloaded
-    | some a => frameUnloaded ms ums a = some ss'[i].unloaded := by
-  induction ss generalizing ss' i with
-  | nil => simp at h1
-  | cons s rest ih =>
-    simp only [attachUnloaded] at h
-    split at h
-    · rename_i hs
-      simp only [Option.map_eq_some_iff] at h
-      obtain ⟨r, hr, rfl⟩ := h
-      cases i with
-      | zero => simp [hs]
-      | succ i => simpa using ih r hr i (by simpa using h1) (by simpa using h2)
-    · rename_i a hs
-      split at h
-      · cases h
-        rename_i u r hu hr
-        cases i with
-        | zero => simp [hs, hu]
-        | succ i => simpa using ih r hr i (by simpa using h1) (by simpa using h2)
-      · cases h
-
-end MdModel.Index
-
-namespace MdModel.Index
-open MdModel
-open MdModel.Reason (Exc Reason Os Cpu)
+/-- what attribution leaves alone: id, name, info, and the walker's frames -/
+theorem attachStack_core (ums : List Mod) (p : PreStack) (s : Stack) (h : attachStack ums p = some s) :
+    s.id = p.id ∧ s.name = p.name ∧ s.info = p.info ∧ s.frames.map (·.f) = p.frames ∧
+    optMap (attachFrame ums) p.frames = some s.frames := by
+  unfold attachStack at h
+  split at h
+  · rename_i fs hfs
+    cases h
+    exact ⟨rfl, rfl, rfl, optMap_attachFrame_f ums _ _ hfs, hfs⟩
+  · cases h
 
 /-- unfolding of `index` on a dump with a thread list -/
 theorem index_state_inv (d : Dump) (ts : List Thread) (s : State)
     (hth : d.threads = some ts) (h : index d = .state s) :
-    attachUnloaded (loadedModules d) (unloadedModules d) (ts.map (stackOf d)) = some s.stacks ∧
+    optMap (attachStack (unloadedModules d)) (ts.map (stackOf d)) = some s.stacks ∧
     s.requesting = (loop d 0 ts none).2 ∧
     s.exc = d.exc.map (fun p => (Reason.fromException p.1 (Os.ofPlatformId d.platformId) (Cpu.ofArch d.arch),
                                  Reason.crashAddress p.1 (Os.ofPlatformId d.platformId) (Cpu.ofArch d.arch))) ∧
     s.pid = processId d ∧ s.ctime = createTime d ∧ s.time = d.timestamp ∧
-    s.modules = loadedModules d ∧ s.unloaded = unloadedModules d := by
+    s.modules = loadedModules d ∧ s.unloaded = unloadedModules d ∧
+    s.sys = sysInfo d.platformId d.arch d.sys ∧ s.lsb = d.lsb.map lsbOf ∧
+    s.macCrash = macCrashInfo d.macCrash ∧ s.bootArgs = d.bootArgs ∧ s.assertion = none ∧
+    s.certs = [] ∧ s.handles = d.handles ∧
+    (d.bigEndian && walksMemory d (ts.map (stackOf d))) = false := by
   unfold index at h
   rw [hth] at h
   simp only at h
-  rw [loop_stacks] at h
   split at h
   · cases h
-  · rename_i ss hss
-    cases h
-    refine ⟨hss, rfl, ?_, rfl, rfl, rfl, rfl, rfl⟩
-    cases d.exc with
-    | none => rfl
-    | some p => obtain ⟨e, c⟩ := p; rfl
+  · rw [loop_stacks] at h
+    split at h
+    · cases h
+    · rename_i hbe
+      split at h
+      · cases h
+      · rename_i ss hss
+        cases h
+        refine ⟨hss, rfl, ?_, rfl, rfl, rfl, rfl, rfl, rfl, rfl, rfl, rfl, rfl, rfl, rfl, by simpa using hbe⟩
+        cases d.exc with
+        | none => rfl
+        | some p => obtain ⟨e, c⟩ := p; rfl
 
 end MdModel.Index
